@@ -265,7 +265,7 @@ func scenarios() []scenario {
 		// "k1" is a byte-suffix of "zk1": the k1 leaf hangs in the terminator slot (16) of a
 		// branch of S's data trie (added after the independent seed C10-2)
 		w.block(write{"S", "k1", "x"}, write{"S", "k2", "x"}, write{"S", "zk1", "x"}, write{"T", "k1", "x"}) // root 1
-		w.block(write{"S", "k1", "yy"})                                              // root 2
+		w.block(write{"S", "k1", "yy"})                                                                      // root 2
 		w.finalize(2)
 	}
 	tail := func(w *world, from int) {
@@ -370,7 +370,7 @@ func main() {
 				}
 				si, sc := si, sc
 				saved := c.Deadline
-				c.Deadline = time.Now().Add(7 * time.Minute)
+				c.Deadline = time.Now().Add(4 * time.Minute)
 				c.TolerateDivergence = true // deeper schedules reach nondeterminism the rewrites do not pin
 				st := mc.Explore(c, 2, 1, func(ch *mc.Chooser) { runOne(c, si, sc, ch) })
 				c.TolerateDivergence = false
@@ -383,7 +383,7 @@ func main() {
 					break
 				}
 			}
-			c.Bound += fmt.Sprintf("; preemption bound 2 completed for scenarios %v (7-minute box each)", done2)
+			c.Bound += fmt.Sprintf("; preemption bound 2 completed for scenarios %v (4-minute box each)", done2)
 		}
 	})
 }
